@@ -78,6 +78,25 @@ def r16_1(ctx: Ctx) -> RuleResult:
     else:
         rr.bad(None, None, "group SIGN must be exactly `+` or `-`", construct=f"SIGN: {pat.pattern}",
                file=where, qualname="jsonpath.pointer.RE_RELATIVE_POINTER")
+    # decided on the folded pattern: a step count or an offset spelled with non-ASCII decimal digits is not a
+    # relative pointer of the draft (and would not print as it was written: int() reads it, str() writes ASCII)
+    import re as _re
+
+    rx = _re.compile(pat.pattern, pat.flags)
+    alien = []
+    for d in ("\u0661", "\u0663", "\uff11"):
+        m = rx.match(d + "/foo")
+        if m is not None and m.group("ORIGIN"):
+            alien.append(f"ORIGIN accepts U+{ord(d):04X}")
+        m = rx.match("0+" + d + "/x")
+        if m is not None and m.group("INDEX_G"):
+            alien.append(f"INDEX accepts U+{ord(d):04X}")
+    if alien:
+        rr.bad(None, None, f"the relative-pointer grammar reads non-ASCII decimal digits as numbers ({alien[0]} and {len(alien) - 1} more): "
+               "`\u0661/foo` is parsed as `1/foo`, and printing the parsed pointer does not return its text",
+               construct="relative pointer grammar: non-ASCII digits", file=where, qualname="jsonpath.pointer.RE_RELATIVE_POINTER")
+    else:
+        rr.ok(where, "steps and offset are ASCII digits only")
     if regexast.group_is_optional(pat.pattern, "INDEX_G", pat.flags):
         rr.ok(where, "the offset group is optional as a whole")
     else:
@@ -257,4 +276,146 @@ def r16_6(ctx: Ctx) -> RuleResult:
     return rr
 
 
-RULES = [r16_1, r16_2, r16_3, r16_4, r16_5, r16_6]
+def r16_7(ctx: Ctx) -> RuleResult:
+    """The index that results from an offset is bounded on both sides before it is stored or formatted: the
+    offset has any number of digits, so the sum can be an integer that `str()` refuses to print (ValueError, more
+    than 4300 digits) - in the resulting pointer or in the error message itself."""
+    from .common import path_conditions
+
+    rr = RuleResult("R16.7", "the offset index is range-checked on both sides before it is stored", floor=1)
+    fn = ctx.repo.require_func("RelativeJSONPointer.to")
+    n = 0
+    for a in ast.walk(fn.node):
+        if not (isinstance(a, ast.Assign) and isinstance(a.targets[0], ast.Subscript) and ast.unparse(a.targets[0].slice) == "-1"):
+            continue
+        if isinstance(a.value, (ast.JoinedStr, ast.Constant)):
+            continue
+        n += 1
+        vt = ast.unparse(a.value)
+        defs = {ast.unparse(x.targets[0]): ast.unparse(x.value) for x in ast.walk(fn.node)
+                if isinstance(x, ast.Assign) and isinstance(x.targets[0], ast.Name)}
+        same = {vt} | {k for k, v in defs.items() if v == vt} | ({defs[vt]} if vt in defs else set())
+        upper = lower = False
+        for t, b in path_conditions(fn.node, a):
+            if not (isinstance(t, ast.Compare) and len(t.ops) == 1 and not b):
+                continue
+            left, op, right = ast.unparse(t.left), t.ops[0], ast.unparse(t.comparators[0])
+            if left in same and isinstance(op, (ast.Gt, ast.GtE)) or right in same and isinstance(op, (ast.Lt, ast.LtE)):
+                upper = True
+            if left in same and isinstance(op, (ast.Lt, ast.LtE)) or right in same and isinstance(op, (ast.Gt, ast.GtE)):
+                lower = True
+        if upper and lower:
+            rr.ok(fn.loc(a), f"`{short(a)}`: refused below and above a bound before it is stored")
+        else:
+            rr.bad(fn, a, f"`{short(a)}` stores an index that has no {'upper' if not upper else 'lower'} bound: with an offset of "
+                   "thousands of digits the resulting pointer cannot be printed (`ValueError: Exceeds the limit (4300 digits)`), "
+                   "which is not a pointer error", construct=f"to: {short(a)} without {'an upper' if not upper else 'a lower'} bound")
+    if n == 0:
+        raise AnalysisError("R16.7: no index-offset store found in RelativeJSONPointer.to")
+    return rr
+
+
+def r16_8(ctx: Ctx) -> RuleResult:
+    """The suffix of a relative pointer is a JSON Pointer whose last token may end in white space: the text that
+    reaches `JSONPointer(...)` is the matched POINTER group, at most stripped on the left."""
+    from .common import expand_locals
+
+    rr = RuleResult("R16.8", "the suffix reaches the pointer parser with its trailing characters", floor=1)
+    fn = ctx.repo.require_func("RelativeJSONPointer._parse")
+    n = 0
+    for c in calls(fn.node):
+        if callee_name(c) != "JSONPointer" or not c.args:
+            continue
+        e = expand_locals(fn.node, c.args[0])
+        if not any(isinstance(g, ast.Call) and callee_name(g) == "group" for g in ast.walk(e)):
+            continue
+        n += 1
+        edits = []
+        cur = e
+        while isinstance(cur, ast.Call) and isinstance(cur.func, ast.Attribute):
+            if callee_name(cur) == "group":
+                break
+            edits.append(cur.func.attr)
+            cur = cur.func.value
+        bad = [m for m in edits if m != "lstrip"]
+        if not bad and isinstance(cur, ast.Call) and callee_name(cur) == "group":
+            rr.ok(fn.loc(c), f"`{short(e, 60)}` is parsed as the suffix")
+        else:
+            rr.bad(fn, c, f"the suffix is parsed from `{short(e, 70)}`: `.{(bad or ['?'])[0]}()` removes white space at the end of the last "
+                   "token (`0/x ` is read as `0/x`), so the pointer applied and printed is not the one written",
+                   construct=f"_parse: suffix {short(e, 70)}")
+    if n == 0:
+        raise AnalysisError("R16.8: the suffix is no longer parsed by JSONPointer(<POINTER group>) in _parse")
+    return rr
+
+
+def r16_9(ctx: Ctx) -> RuleResult:
+    """The offset applies to a final *array index*: a str token counts as one only in canonical decimal form
+    (what RFC 6901 and JSONPointer._index call an index), not whenever `int()` can read it."""
+    from .c04 import _pattern_canonical
+    from .common import path_conditions
+
+    rr = RuleResult("R16.9", "the index offset applies to canonical array indices only", floor=2)
+    cls = ctx.repo.require_class("RelativeJSONPointer")
+    to = ctx.repo.require_func("RelativeJSONPointer.to")
+    po = ctx.partial
+    recognisers: Set[str] = set()
+    # 1. recognisers: methods of the class with one parameter that test it with int()
+    for name, m in cls.methods.items():
+        if name == "to":
+            continue
+        params = [a.arg for a in m.node.args.args if a.arg != "self"]
+        for c in calls(m.node, "int"):
+            if not (isinstance(c.func, ast.Name) and len(c.args) == 1 and params and path_of(c.args[0]) == params[0]):
+                continue
+            if any(isinstance(x, ast.Call) and callee_name(x) == "group" for x in ast.walk(m.node)):
+                continue
+            names = po._tynames(m, c.args[0])
+            if names is not None and names <= {"int", "bool", "float"}:
+                continue
+            if name == "_zero_or_positive":
+                continue  # digits matched by the grammar (R16.1)
+            recognisers.add(name)
+            ok = None
+            why = "no dominating canonical-form test"
+            for ev in po._facts(m, c):
+                if ev.startswith("rematch:") and ev.endswith("@" + params[0]):
+                    _, pat_expr, how = ev[: -len("@" + params[0])].split(":", 2)
+                    if how != "fullmatch":
+                        why = f"`{pat_expr}.{how}` does not anchor the end of the token"
+                        continue
+                    w = _pattern_canonical(ctx, m, pat_expr)
+                    if w is None:
+                        ok = f"dominated by {pat_expr}.fullmatch()"
+                    else:
+                        why = w
+            if ok:
+                rr.ok(m.loc(c), f"{m.qualname}: {short(c)} {ok}")
+            else:
+                rr.bad(m, c, f"`{short(c)}` decides whether the final token is an array index: int() also reads `01`, `+1`, `1_0` and "
+                       f"non-ASCII digits, which are member names ({why}); `/a/01` with `0+1` becomes `/a/2`",
+                       construct=f"{name}: {short(c)}")
+    # 2. every conversion of the final token in `to` happens under such a recogniser (or an isinstance int test)
+    n = 0
+    for c in calls(to.node, "int"):
+        if not (isinstance(c.func, ast.Name) and len(c.args) == 1 and isinstance(c.args[0], ast.Subscript)):
+            continue
+        n += 1
+        subject = ast.unparse(c.args[0])
+        guarded = False
+        for t, b in path_conditions(to.node, c):
+            if b and isinstance(t, ast.Call) and callee_name(t) in recognisers and t.args and ast.unparse(t.args[0]) == subject:
+                guarded = True
+            if b and isinstance(t, ast.Call) and callee_name(t) == "isinstance" and ast.unparse(t.args[0]) == subject and ast.unparse(t.args[1]) == "int":
+                guarded = True
+        if guarded:
+            rr.ok(to.loc(c), f"`{short(c)}` under the index recogniser")
+        else:
+            rr.bad(to, c, f"`{short(c)}` converts the final token without the index recogniser having accepted it",
+                   construct=f"to: {short(c)} unguarded")
+    if n == 0 and not recognisers:
+        raise AnalysisError("R16.9: neither an index recogniser nor a conversion of the final token was found")
+    return rr
+
+
+RULES = [r16_1, r16_2, r16_3, r16_4, r16_5, r16_6, r16_7, r16_8, r16_9]
